@@ -17,6 +17,7 @@ import (
 	"encoding/base64"
 	"fmt"
 	"hash"
+	"math/rand"
 	"strings"
 
 	"github.com/beevik/etree"
@@ -37,15 +38,21 @@ type detReader struct {
 	drawn [][]byte
 	short bool   // legal io.Reader behaviour: return fewer bytes than asked for
 	all   []byte // everything handed out, in order
+	// own stream, seeded by one draw from the case PRNG: the standard library reads a data-independent, *non-deterministic* number of
+	// bytes from a custom random source (randutil.MaybeReadByte), which must not disturb the generator's own choices
+	r *rand.Rand
 }
 
 func (d *detReader) Read(p []byte) (int, error) {
+	if d.r == nil {
+		d.r = rand.New(rand.NewSource(d.c.rng.Int63()))
+	}
 	n := len(p)
 	if d.short && n > 1 {
-		n = 1 + d.c.rng.Intn(n-1)
+		n = 1 + d.r.Intn(n-1)
 	}
 	for i := 0; i < n; i++ {
-		p[i] = byte(1 + d.c.rng.Intn(255))
+		p[i] = byte(1 + d.r.Intn(255))
 	}
 	d.drawn = append(d.drawn, append([]byte{}, p[:n]...))
 	d.all = append(d.all, p[:n]...)
@@ -436,9 +443,13 @@ func (c *Ctx) xdecrypt(k xKey, ls []xLayer, expect []byte, tag string) {
 	}
 	// an RSA-wrapped key whose embedded certificate is not the supplied key's must be refused, whatever the ciphertext
 	if orc == "" && k.kind == "r" && strings.HasPrefix(impl, "ok") {
+		// the supplied RSA key is consumed by the first RSA-transport layer of the chain (layers nested below it are never looked at)
 		for _, l := range ls {
-			if l.alg != nil && strings.Contains(*l.alg, "rsa") && l.cert != "" && l.certTok(k.id) != "+ 1" {
-				orc = "key=c11-cert-mismatch-accepted decryption succeeded although the EncryptedKey names a certificate (" + l.cert + ") that does not belong to the supplied key"
+			if l.alg != nil && strings.Contains(*l.alg, "rsa") {
+				if l.cert != "" && l.certTok(k.id) != "+ 1" {
+					orc = "key=c11-cert-mismatch-accepted decryption succeeded although the EncryptedKey names a certificate (" + l.cert + ") that does not belong to the supplied key"
+				}
+				break
 			}
 		}
 	}
